@@ -467,8 +467,13 @@ def run(F, rep):
     def _from_library(e):
         if 'mLibrary' in render(e):
             return True
-        return any(x.get('k') == 'Ref' and x.get('dk') == 'local' and _sd(fm_, x.get('d')) is not None and 'mLibrary' in render(_sd(fm_, x.get('d'))) for x in walk(e))
-    reads = [c for c in fm_.walk() if c.get('k') == 'Call' and c.get('opc') == '=' and c['c'][0].get('k') == 'Ref' and _from_library(c['c'][1])]
+        def _defs(d):
+            out = [v['c'][0] for v in fm_.walk() if v.get('k') == 'Var' and v.get('d') == d and v.get('c')]
+            out += [a['c'][1] for a in fm_.walk() if a.get('k') == 'Call' and a.get('opc') == '=' and len(a.get('c', [])) == 2 and a['c'][0].get('k') == 'Ref' and a['c'][0].get('d') == d]
+            return out
+        # a local (an iterator, a reference) every definition of which looks into the library
+        return any(x.get('k') == 'Ref' and x.get('dk') == 'local' and _defs(x.get('d')) and all('mLibrary' in render(d_) for d_ in _defs(x.get('d'))) for x in walk(e))
+    reads = [c for c in fm_.walk() if c.get('k') == 'Call' and c.get('opc') == '=' and c['c'][0].get('k') == 'Ref' and (c['c'][0].get('t') or '').replace('const ', '').startswith('std::shared_ptr<libcellml::Model>') and _from_library(c['c'][1])]
     sets = [c for c in fm_.walk() if c.get('k') == 'Call' and c.get('fn') == 'setModel']
     if not reads or len(sets) != 1:
         raise AnalysisBroken('fetchModel: library read / setModel vanished (%d reads, %d setModel)' % (len(reads), len(sets)))
